@@ -67,7 +67,7 @@ def run_impl_sharded(script: str, cases: list, shard: int = 0, timeout: int = 90
 
     if not cases:
         return []
-    n = shard or max(1, min(jobs or 4, (len(cases) + 19) // 20))
+    n = shard or (max(1, min(jobs, (len(cases) + 1) // 2)) if jobs else max(1, min(4, (len(cases) + 19) // 20)))
     chunks = [cases[i::n] for i in range(n)]
     with ThreadPoolExecutor(n) as ex:
         res = list(ex.map(lambda c: run_impl(script, dict({key: c}, **(extra or {})), timeout)["outs"] if c else [], chunks))
@@ -106,6 +106,10 @@ def frac(x) -> Fraction:
 
 def qlit(x) -> str:
     f = frac(x)
+    if f == 0:
+        return "0%Qc"
+    if f == 1:
+        return "1%Qc"
     return f"(q ({f.numerator}) ({f.denominator}))"
 
 
